@@ -76,7 +76,7 @@ _add(
          "frequency*refrac<1000 limit, and for the Bernoulli encoders also above one expected spike per step (clamped); 1-300 steps; intensities in [0,1] with exact zeros and ones), run twice from the "
          "same generator state. Non-trivial: the refractory encoder, or any case with a zero-intensity element; "
          "distinct = (encoder, online, module, dt, refractory, compensation, steps class, zero pattern, rank) abstractions.",
-    required=["shape_dtype_checks", "reproducibility_checks", "zero_intensity_elements", "refractory_gaps_checked"],
+    required=["shape_dtype_checks", "reproducibility_checks", "zero_intensity_elements", "refractory_gaps_checked", "zero_intensity_element_steps_in_storms"],
     floor={"quick": 200, "thorough": 400},
     text="Held on every generator seed explored: the real encoders are run over a seed sweep and every output is "
          "checked for dtype, shape / slice count, silence of zero-intensity elements, the minimum spike gap of the "
@@ -175,7 +175,7 @@ _add(
          "one neuron step judged by the model-free invariants I1-I6 and (float64) by the one-step model from the "
          "observed pre-state (spike set, voltage, refractory time, and the batch-averaged adaptation that sets the next step's threshold / current). distinct = (class, dtype, dt, refractory ratio, drive, lock, adapt, spiking/quiet, batch).",
     required=["steps_checked", "spikes_seen", "reset_checks", "silence_window_steps", "adaptation_freeze_checks", "adaptation_law_checks",
-              "model_steps_checked", "exact_ties_checked"],
+              "model_steps_checked", "exact_ties_checked", "mid_trajectory_clears"],
     floor={"quick": 400, "thorough": 1500},
     text="Held on every trajectory explored (apart from the listed finding): every forward of the real neuron classes "
          "is checked for non-negative refractory time, spike attribute == returned spikes, no spike while refractory, "
@@ -254,7 +254,7 @@ _add(
          "accumulator must receive the sum of the two cells' rules), all seven STDP-family trainers. One evaluation = one layer step + trainer call + update judged (parts, net change, "
          "applied change) against sums over recorded spike times; non-trivial when at least one spike pair contributes; "
          "distinct = (trainer, cell type, delay mode, sign mode, trace mode, reduction, batch, reward kind, pairs/no pairs).",
-    required=["trainer_steps_checked", "steps_with_pairs", "exhaustive_histories", "per_cell_override_cases", "multicell_steps_checked", "multicell_shared_connection_steps", "fractional_delay_steps_checked"],
+    required=["trainer_steps_checked", "steps_with_pairs", "exhaustive_histories", "per_cell_override_cases", "multicell_steps_checked", "multicell_shared_connection_steps", "fractional_delay_steps_checked", "multicell_frozen_layer_cases", "episode_clears"],
     floor={"quick": 60, "thorough": 150},
     exhaustive={"quick": ["all 4^4 joint pre/post histories of one synapse x 4 sign modes x 2 trace modes"],
                 "thorough": ["all 4^5 joint pre/post histories of one synapse x 4 sign modes x 2 trace modes"]},
@@ -277,7 +277,7 @@ _add(
          "rule; (d) exactly constructed t_delta == 0 ties. One evaluation = one step judged; distinct = (part, trainer, "
          "cell type, delay values, sign mode, reduction, batch, reward kind, active/silent).",
     required=["formula_steps_checked", "steps_with_change", "steps_before_both_sides_spiked", "trainer_clears", "cross_steps_checked",
-              "zero_delay_steps_checked", "ties_checked", "tensor_valued_kernel_kwargs_cases"],
+              "zero_delay_steps_checked", "ties_checked", "tensor_valued_kernel_kwargs_cases", "multicell_steps_checked"],
     floor={"quick": 60, "thorough": 150},
     text="Held on every history explored: the change applied by each real delay-adjusted / kernel trainer after every "
          "step equals the documented function of t_delta built from the true most-recent spike times and the delay read "
@@ -316,7 +316,7 @@ _add(
          "different (sample 0 silent, sample 1 saturated, the rest random); 5-25 steps each. One evaluation = one step in "
          "which every sample of every observable is compared with its single-sample twin (or the sum of per-sample "
          "trainer steps); distinct = (component kind, class, batch size, delay, ...).",
-    required=["steps_checked", "sample_comparisons", "trainer_steps_checked", "resized_components"],
+    required=["steps_checked", "sample_comparisons", "trainer_steps_checked", "resized_components", "mid_run_clears", "single_connection_biclique_steps"],
     floor={"quick": 60, "thorough": 200},
     text="Held on every run explored: sample b of every output, state tensor and history tensor of a batched real "
          "component equals what an identically parameterised batch-size-1 twin produces for that sample alone, at every "
@@ -355,7 +355,7 @@ _add(
          "configuration is compared (reported configuration, recordsz/dt/duration/inclusive of every internal "
          "RecordTensor, outputs from a cleared state on the same inputs). One evaluation = one assignment judged; "
          "distinct = (component kind, class, assigned attribute).",
-    required=["assignments_checked", "twin_comparisons", "output_comparisons"],
+    required=["assignments_checked", "twin_comparisons", "output_comparisons", "assignments_after_use"],
     floor={"quick": 40, "thorough": 80},
     text="Held on every assignment sequence explored: each real property setter reports the assigned value back, leaves "
          "every other reported attribute unchanged, and the setter-built object is indistinguishable - configuration, "
